@@ -58,7 +58,43 @@ func supPid(n uint64) gen.PID {
 
 var supOther = []error{errors.New("other0"), errors.New("other1"), errors.New("other2"), errors.New("other3")}
 
+// Wrapped reasons: an actor that obeys an exit signal terminates with fmt.Errorf("%s: %w", senderPid, reason)
+// (act/actor.go) — an error that is not identical to any of the base reasons.  They are written "o1NN" where NN
+// is the code of the innermost base reason, so that the Lean model sees them as `Reason.other (100+NN)`.
+var supBaseNames = []string{"normal", "shutdown", "kill", "panic", "exceeded", "", "", "", "", "", "o0", "o1", "o2", "o3"}
+
+func supBaseCode(s string) int {
+	for i, n := range supBaseNames {
+		if n == s && n != "" {
+			return i
+		}
+	}
+	return -1
+}
+
+// supWrap: the reason a child that was sent `r` terminates with
+func supWrap(r string) string {
+	if c := supBaseCode(r); c >= 0 {
+		return fmt.Sprintf("o%d", 100+c)
+	}
+	return r // already wrapped
+}
+
+// supBase: innermost base reason
+func supBase(r string) string {
+	if strings.HasPrefix(r, "o1") && len(r) == 4 {
+		n, _ := strconv.Atoi(r[1:])
+		if n >= 100 && n-100 < len(supBaseNames) && supBaseNames[n-100] != "" {
+			return supBaseNames[n-100]
+		}
+	}
+	return r
+}
+
 func supReason(s string) error {
+	if b := supBase(s); b != s {
+		return fmt.Errorf("<pid>: %w", supReason(b))
+	}
 	switch s {
 	case "normal":
 		return gen.TerminateReasonNormal
@@ -80,6 +116,15 @@ func supReason(s string) error {
 	return errors.New("unknown-reason")
 }
 func supReasonS(e error) string {
+	if e != nil && errors.Unwrap(e) != nil {
+		in := e
+		for errors.Unwrap(in) != nil {
+			in = errors.Unwrap(in)
+		}
+		if c := supBaseCode(supReasonS(in)); c >= 0 {
+			return fmt.Sprintf("o%d", 100+c)
+		}
+	}
 	switch e {
 	case nil:
 		return "-"
@@ -606,5 +651,9 @@ func runC08(c *Ctx) {
 	implS := time.Since(t0).Seconds()
 	supCompare(c, seqs, 12)
 	supCompareModel(c, "suploop", loops, 12)
+	// ---- K4: the same rules on a real node ---------------------------------------
+	tk := time.Now()
+	runSupK4(c)
+	r.Note("K4 %.1fs", time.Since(tk).Seconds())
 	r.Note("implementation side %.1fs, with model comparison %.1fs, %d sequences", implS, time.Since(t0).Seconds(), len(seqs))
 }
